@@ -156,10 +156,11 @@ func (h *Handler) Handle(down *layer4.Connection, _ layer4.Handler) error {
 
 	var upConns []net.Conn
 	var proxyErr error
+	var upstream *Upstream
 
 	for {
 		// choose an available upstream
-		upstream := h.LoadBalancing.SelectionPolicy.Select(h.Upstreams, down)
+		upstream = h.LoadBalancing.SelectionPolicy.Select(h.Upstreams, down)
 		verifEv("proxy.select", h, upstream != nil)
 		if upstream == nil {
 			if proxyErr == nil {
@@ -185,7 +186,15 @@ func (h *Handler) Handle(down *layer4.Connection, _ layer4.Handler) error {
 	}
 
 	// make sure upstream connections all get closed
+	// count the proxied connection against the upstream's peers until it ends, so
+	// that max_connections / unhealthy_connection_count and least_conn see it
+	for _, p := range upstream.peers {
+		_ = p.countConn(1)
+	}
 	defer func() {
+		for _, p := range upstream.peers {
+			_ = p.countConn(-1)
+		}
 		for _, conn := range upConns {
 			_ = conn.Close()
 		}
